@@ -39,16 +39,47 @@ let parse_reg (s : string) : reg =
   | 'B' -> ImmBool (body = "1")
   | _ -> RNone
 
-type desc = { d_id : int; d_name : string; d_ok : bool; d_scope : (n list * reg) list }
+type desc = { d_id : int; d_name : string; d_ok : bool; d_src : string; d_scope : (n list * reg) list }
 
 let parse_desc (s : string) : desc =
   match String.split_on_char ':' s with
-  | id :: name :: ok :: rest ->
+  | id :: name :: ok :: src :: rest ->
     let ents = String.concat ":" rest in
     let scope = if ents = "" then [] else
         List.map (fun e -> let (k, v) = split1 '=' e in (bytes_of_string k, parse_reg v)) (String.split_on_char ',' ents) in
-    { d_id = int_of_string id; d_name = name; d_ok = (ok = "1"); d_scope = scope }
+    { d_id = int_of_string id; d_name = name; d_ok = (ok = "1"); d_src = src; d_scope = scope }
   | _ -> failwith ("bad descriptor " ^ s)
+
+(* The scope portus gives a program is an input of the loop model; here it is compared with the
+   scope the compiler model gives the same text: same acceptance, and for every probed name the
+   same register class, slot and volatility (the class decides what get_field/update_field do). *)
+let scope_cache : (string, string list) Hashtbl.t = Hashtbl.create 16
+let reg_key (r : reg) : string = match r with
+  | Control (i, _, v) -> Printf.sprintf "C%d%s" (int_of_n i) (if v then "v" else "")
+  | Report (i, _, v) -> Printf.sprintf "R%d%s" (int_of_n i) (if v then "v" else "")
+  | Implicit (i, _) -> Printf.sprintf "I%d" (int_of_n i)
+  | Local (i, _) -> Printf.sprintf "L%d" (int_of_n i)
+  | Primitive (i, _) -> Printf.sprintf "P%d" (int_of_n i)
+  | Tmp (i, _) -> Printf.sprintf "T%d" (int_of_n i)
+  | ImmNum _ -> "N" | ImmBool _ -> "B" | RNone -> "X"
+let scope_mismatches (d : desc) : string list =
+  let key = string_of_int d.d_id ^ ":" ^ d.d_src ^ ":" ^ String.concat "," (List.map (fun (k, r) -> string_of_bytes k ^ "=" ^ reg_key r) d.d_scope) in
+  match Hashtbl.find_opt scope_cache key with
+  | Some l -> l
+  | None ->
+    let l =
+      if d.d_src = "" || d.d_src = "-" then [] else
+        match compile_and_serialize (bytes_of_hex d.d_src) [] with
+        | Inl (Ok (_, sc)) ->
+          if not d.d_ok then ["accepted-by-the-model-only:" ^ d.d_name] else
+            List.filter_map (fun (k, r) ->
+                match sc_get sc.sc_named k with
+                | Some r' when reg_key r' = reg_key r -> None
+                | Some r' -> Some (Printf.sprintf "%s:%s-vs-model-%s" (string_of_bytes k) (reg_key r) (reg_key r'))
+                | None -> Some (Printf.sprintf "%s:%s-vs-model-absent" (string_of_bytes k) (reg_key r))) d.d_scope
+        | Inl _ -> if d.d_ok then ["rejected-by-the-model-only:" ^ d.d_name] else []
+        | Inr _ -> [] in
+    Hashtbl.replace scope_cache key l; l
 
 let parse_fields (s : string) : (n list * n) list =
   if s = "" || s = "-" then [] else
@@ -314,6 +345,12 @@ let cmd_loop (_param : string) (arg : string) (_impl : string) : string * string
              if d11 && not d05 && not d09 && not (differs pcmd) then fails := "C06:control-message-bytes-differ-from-the-requested-updates" :: !fails);
             if d12 && not d11 && not d05 then fails := "C12:field-lookup-result-differs" :: !fails
           end
+        end;
+        (* the scopes the lookups and updates of this case were resolved in *)
+        if List.exists (fun d -> scope_mismatches d <> []) descs then begin
+          fails := "C12:scope-gives-a-name-another-register-class-or-slot-than-the-compiler-model" :: !fails;
+          fails := "C13:scope-gives-a-name-another-register-class-or-slot-than-the-compiler-model" :: !fails;
+          fails := "C11:scope-gives-a-name-another-register-class-or-slot-than-the-compiler-model" :: !fails
         end;
         if !fails = [] then "ok" else "FAIL:" ^ String.concat "," (List.sort_uniq compare !fails)
       end in
